@@ -14,7 +14,7 @@ EXPLANATION = (
     "exited state wait and stop return the cached value with no system call; no path reaps twice or leaves a running handle "
     "without a valid exit pipe. Plus table agreement for the decoder: the wait status word is read only through "
     "WIFEXITED/WEXITSTATUS/WTERMSIG and the signal offset equals REPROC_SIGKILL-SIGKILL = REPROC_SIGTERM-SIGTERM. Not decided: "
-    "that the kernel and <sys/wait.h> deliver the right status for each of the 256 x 31 values.")
+    "that the kernel and <sys/wait.h> deliver the right status for each of the 256 x 31 values. When the tree reaps with waitid() instead, the decoder is evaluated for a child that exited, was killed, or was killed with a core dump (C01.R5w).")
 ASSUMPTIONS = [
     "clang 14 parser/CFG and the fact extractor are correct", "libc models in sa/models.py; waitpid(pid, &s, 0) returns only for a terminated child",
     "the W* macros of <sys/wait.h> decode the status word correctly",
